@@ -153,6 +153,8 @@ Proof.
   - eapply label_le_trans; eassumption.
 Qed.
 
+Definition qz (n : Z) (d : positive) : Q := Qmake n d.
+
 (* ---------------------------------------------------------------- cells *)
 Inductive cell := CNum (q : Q) | CNaN | CBool (b : bool) | CStr (s : string) | CNone.
 Definition cell_eqb (a b : cell) : bool :=
@@ -216,3 +218,11 @@ Fixpoint nodupb {A} (eqb : A -> A -> bool) (l : list A) : bool :=
   | [] => true
   | x :: t => negb (existsb (eqb x) t) && nodupb eqb t
   end.
+
+(* indices of failing cases *)
+Fixpoint failing_from {A} (i : nat) (f : A -> bool) (l : list A) : list nat :=
+  match l with
+  | [] => []
+  | x :: t => if f x then failing_from (S i) f t else i :: failing_from (S i) f t
+  end.
+Definition failing {A} (f : A -> bool) (l : list A) : list nat := failing_from 0 f l.
